@@ -8,9 +8,16 @@ Tie to the source:
      themselves contracted by NumPy from the leaves' site tensors.  `measure_overlap` / `measure_mpo` (single MPO, sums
      of MPOs through lists, periodic MPOs) and environments closed at every bond are compared with `np.vdot` of dense
      vectors.  `mps_from_tensor`, `zipper`, `compression_` without truncation reproduce the dense object (1e-9).
+     Composition is explored in depth: half of the steps consume the result of the previous step (mostly combining it with a
+     differently produced object: (a@b) - c, (G@H)@c + (a+b)@c, ...), N = 1 and N = 2 carry extra weight, and a 'sectors' flavour
+     builds charged product operators that map one charge sector onto another (with states in both sectors) and favours
+     conj / T / H / reverse_sites of those.  For measure_mpo the OPERATOR is chosen first (results of steps first), then a ket it
+     can act on and a bra in the sector of op@ket (the product itself becomes a node when no other node lives there), so
+     charged, conjugated, transposed and reversed operators are all measured in three-layer environments.
  (b) correspondence with the Lean dense model `YModel.DMps` (driver drv_c06) which evaluates the same program from
      the same dense site tensors over exact Gaussian rationals: exact where the real computation is exact
-     (integer data, proven below 2^52 through an absolute-value bound), 1e-10 relative otherwise.
+     (integer data scaled by dyadic factors/amplitudes: every value is an integer multiple of the node's unit 2^-dexp and
+     |value| * 2^dexp is proven below 2^52 through an absolute-value bound), 1e-10 relative otherwise.
 """
 import math
 import time
@@ -1297,7 +1304,13 @@ def run(ctx):
                 "refilled with small non-zero integers (30% complex), factor in {1,2,1/2,3,5/4,3/8}; 3-10 steps drawn from add (1-4 terms, "
                 "amplitudes of mixed sign/phase incl. 0, repeated operands), +, -, scalar *, numpy-scalar *, /, unary -, @ and multiply (MPO@MPS, "
                 "MPO@MPO), conj, T/transpose, H/conjugate_transpose, reverse_sites, copy, clone, shallow_copy, factor rescaling; operands are "
-                "chosen among type-compatible earlier nodes. Every node: to_tensor()/to_matrix() vs NumPy on the leaves; 3-6 numbers per case "
+                "chosen among type-compatible earlier nodes, biased to recent ones; with probability 1/2 a step consumes the previous "
+                "result (sums/differences with differently produced objects, further products, conj/H/rev); N=1,2 weighted up; flavour "
+                "'sectors' (1/5 of the programs, symmetric universes): product MPOs whose local charges map a random product configuration "
+                "onto another one, states in both sectors, a second operator of the same total charge, extra weight on conj/T/H/rev; "
+                "measure_mpo observables choose the operator first (unmeasured step results preferred), then a signature-compatible ket "
+                "(a conjugated copy is appended if needed) and a bra with the virtual legs of op@ket (the product is appended as a node if "
+                "no node has them). Every node: to_tensor()/to_matrix() vs NumPy on the leaves; 3-6 numbers per case "
                 "(measure_overlap, measure_mpo incl. lists and periodic MPOs, Env.measure at every bond, vdot) vs np.vdot; mps_from_tensor, zipper, "
                 "compression_ (1site/2site) without truncation. Non-trivial = N>=2 and >=2 steps; distinct by full spec.")
     ctx.assumptions += [
